@@ -22,7 +22,8 @@ META = {
     "design_ref": "DESIGN.md 4 (C08/C02), design/C08.md",
 }
 
-CLAUSES = ["c08_targets", "c08_rounds", "c08_finalize", "c08_once_per_round", "sm_responsive", "c08_stale_view_inert"]
+CLAUSES = ["c08_targets", "c08_rounds", "c08_finalize", "c08_once_per_round", "sm_responsive", "c08_stale_view_inert",
+           "c08_height_after_fin"]
 
 
 def classify(name, evs, fl):
